@@ -119,7 +119,7 @@ def main():
                 ops.append((k, None))
         return ops
     cases = []
-    n = 20000 if thorough else 3000
+    n = 100000 if thorough else 3000
     for fam in ('uri', 'iri'):
         g = Gen(random.Random(rnd.random()), fam)
         for i in range(n // 2):
